@@ -251,6 +251,24 @@ Next == \/ \E t \in Threads : (Step(t) \/ \E f \in fns, o \in Opts : Start(t, f,
 Spec == Init /\ [][Next]_vars
 FairSpec == Spec /\ \A t \in Threads : WF_vars(Step(t))
 
+(* ---- reduced exploration (used by the bounded exhaustive configuration only) ---- *)
+(* Steps that only move the thread's own frame, or read a part of the shared state  *)
+(* that cannot change while the frame is at that pc (an entry that is present stays *)
+(* present while a request for its code is in flight; under the lock nobody else    *)
+(* writes), or only add to the history `returned`, commute with every step of every *)
+(* other thread and of the environment.  Running them to completion before any      *)
+(* other step is taken loses no reachable value of cache / lock / ntr / returned    *)
+(* and no frame state: every invariant below is a conjunction over single frames    *)
+(* and over the monotone history.  RSpec is Spec with that priority; the full Spec  *)
+(* is checked as well (smaller constants in the quick tier, see vf/props/c10.py).   *)
+LocalPcs == {"fast", "fastrdd", "fastget", "recheck", "lockget", "transform", "inst", "ret", "raise"}
+Local(t) == \/ HasBegin(t) \/ HasEnd(t) \/ FastGet(t) \/ ReCheck(t) \/ LockGet(t)
+            \/ TransformBegin(t) \/ Instantiate(t) \/ Return(t) \/ Raise(t)
+LocalPending == \E t \in Threads : Busy(t) /\ Top(t).pc \in LocalPcs
+RNext == IF LocalPending THEN \E t \in Threads : Local(t) ELSE Next
+RSpec == Init /\ [][RNext]_vars
+Perms == Permutations(Threads)
+
 (* ---- properties ----------------------------------------------------------- *)
 AllFrames == UNION {{stack[t][i] : i \in 1..Len(stack[t])} : t \in Threads}
 
